@@ -40,7 +40,7 @@ let io_s = function
   | IoScA (i, w) -> "ScA" ^ items_s i ^ b01 w | IoSc1 (i, w) -> "Sc1" ^ items_s i ^ b01 w
   | IoScF (i, w) -> "ScF" ^ items_s i ^ b01 w | IoScRel (i, w) -> "ScRel" ^ items_s i ^ b01 w
   | IoScX1 -> "ScX1" | IoScX2 -> "ScX2" | IoRcvRel w -> "RcvRel" ^ b01 w
-  | IoHW1 -> "HW1" | IoHW2 -> "HW2" | IoTry -> "Try"
+  | IoHW1 -> "HW1" | IoHW2 -> "HW2" | IoHW2b -> "HW2b" | IoTry -> "Try"
   | IoFlL -> "FlL" | IoNfy -> "Nfy" | IoNfy2 -> "Nfy2" | IoRelL -> "RelL" | IoRelX -> "RelX" | IoSetWc -> "SetWc"
   | IoHW3 -> "HW3" | IoHW4 -> "HW4" | IoHW5 -> "HW5" | IoHW6 -> "HW6" | IoHW7 -> "HW7"
   | IoHC k -> "HC" ^ hc_s k | IoHCb k -> "HCb" ^ hc_s k | IoHCc k -> "HCc" ^ hc_s k
@@ -49,7 +49,7 @@ let io_s = function
 let w_s = function
   | WIdle -> "Idle" | WAcq -> "Acq" | WNotif -> "Notif" | WSvc -> "Svc" | WSvc2 -> "Svc2" | WApp -> "App"
   | WWs1 n -> "Ws1." ^ si (zi n) | WWs2 n -> "Ws2." ^ si (zi n)
-  | WHw1 st -> "Hw1" ^ site_s st | WHwA -> "HwA" | WHwF st -> "HwF" ^ site_s st
+  | WHw1 st -> "Hw1" ^ site_s st | WHwA -> "HwA" | WHwC st -> "HwC" ^ site_s st | WHwF st -> "HwF" ^ site_s st
   | WHwEP st -> "HwEP" ^ site_s st | WHwEW st -> "HwEW" ^ site_s st
   | WHwEPk (st, cap) -> "HwEPk" ^ site_s st ^ b01 cap | WHwEN st -> "HwEN" ^ site_s st
   | WHwL1 st -> "HwL1" ^ site_s st | WHwL2 st -> "HwL2" ^ site_s st | WHwLP st -> "HwLP" ^ site_s st
@@ -127,7 +127,7 @@ let explore c nw maxsends sizes kinds maxstates errs =
     let (s, b, path) = Queue.pop q in
     if not (inv_ok c s) then begin
       incr invbad; if !iwit = "" then iwit := String.concat " " (List.rev path) ^ " => " ^ state_s s end;
-    if quiescent_app s && not (in_kf_class s) && not (app_ok c s) && zi c.sb <= zi c.hw && zi c.hw >= 1 then begin
+    if quiescent_app s && not (in_kf_class s) && not (app_ok c s) && zi c.hw >= 0 then begin
       incr bad; if !wit = "" then wit := "APP " ^ String.concat " " (List.rev path) ^ " => " ^ state_s s end;
     if quiescent s then begin
       incr quies;
